@@ -917,6 +917,31 @@ def gen_C20(g, tier):
     return lines
 
 
+def gen_C18(g, tier):
+    r = g.r
+    lines = []
+    for c in CODECS:
+        w = g.width[c]
+        per = 64 // w
+        for n in sorted({0, 1, per - 1, per, per + 1, 2 * per, 2 * per + 1}):
+            t = g.text(c, n)
+            lines.append(f"{c} serde p str {hx(t)}")
+            lines.append(f"{c} serde own {offset_slice(g, c, t, r.randrange(1, per + 1))}")
+            lines.append(f"{c} serde rev p str {hx(t)}")
+            lines.append(f"{c} serde trunc {max(n - 1, 0)} p str {hx(t)}")
+            lines.append(f"{c} serde remove r 0 {min(1, n)} p str {hx(t)}")
+            lines.append(f"{c} serde clear p str {hx(t)}")
+        for _ in range(15 if tier == "quick" else 300):
+            v, n = rand_value(g, c, r.randrange(0, 7), 4 * per)
+            lines.append(f"{c} serde {v}")
+        for (st, sbits) in STORAGES:
+            for K in fitting_ks(w, sbits, tier, r):
+                top = 1 << (K * w)
+                for v in (0, 1, top - 1, r.randrange(top), g.value(c, g.text(c, K))):
+                    lines.append(f"{c} kmer serde {K} {st} {v}")
+    return lines
+
+
 def gen_C05(g, tier):
     lines = []
     for c in CODECS:
